@@ -247,9 +247,32 @@ def rule_r3(ctx, rep, vc, pairs):
         rep.oblige(("R3", "sweep"), False)
         rep.add("R3", vc.qname, "foreign-name sweep", "no loop reports CHILD_NOT_ALLOWED for child names the rule does not allow", vc.loc())
     else:
-        bad = [x for x in ast.walk(sweep) if isinstance(x, (ast.Break, ast.Continue, ast.Return))]
+        bad = [x for x in ast.walk(sweep) if isinstance(x, (ast.Break, ast.Return))]
         it_ok = _self_attr(sweep.iter, s, lfield) or (isinstance(sweep.iter, ast.Attribute) and sweep.iter.attr in ("children", "_children"))
         rep.oblige(("R3", "sweep-shape"), not bad and it_ok)
+        # per iteration the report is reached exactly for names the rule does not allow
+        from ..condeval import guard_verdict
+        from ..peval import PEval
+        sp = [p for p in cna if contains(sweep, p.if_node)]
+        if sp and isinstance(sweep.target, ast.Name):
+            for allowed_ in (True, False):
+                pe = PEval(ctx.world)
+                pe.stubs[RULE_Q + ".is_allowed_child"] = allowed_
+                env = {s: {"__obj__": True, ifield: 0, lfield: ["x"], "_rule_children_names": ["x"] if allowed_ else [], "_node": {"__obj__": True, "name": "p", "children": []},
+                           "_children": [], "_name": "r"},
+                       sweep.target.id: "x", "errs": None}
+                if isinstance(sweep.iter, ast.Attribute) and sweep.iter.attr in ("children", "_children"):
+                    env[sweep.target.id] = {"__obj__": True, "name": "x", "_name": "x"}
+                try:
+                    v = guard_verdict(ctx, vc, sp[0].if_node, env, pe)
+                except PEvalUnsupported as ex:
+                    rep.notes.append(f"sweep guard not evaluated: {ex}")
+                    break
+                okv = v == (not allowed_)
+                rep.oblige(("R3", "sweep-verdict", allowed_), okv)
+                if not okv:
+                    rep.add("R3", vc.qname, sp[0].append_call, f"a child name the rule {'allows' if allowed_ else 'does not allow'} is "
+                            f"{'reported' if v else 'not reported'} by the foreign-name sweep", vc.loc(sp[0].if_node))
         if bad:
             rep.add("R3", vc.qname, bad[0], "the foreign-name sweep leaves its loop early: later foreign names go unreported in "
                     "collecting mode", vc.loc(bad[0]))
